@@ -30,38 +30,8 @@ pub open spec fn earlier_runs_ok(pre: Seq<Ev>, post: Seq<Ev>) -> bool {
 pub open spec fn all_runs_ok(pre: Seq<Ev>, post: Seq<Ev>) -> bool {
     forall|k: int| pre.len() <= k < post.len() ==> iteration_value((#[trigger] post[k])->RunClosure_0) is Ok
 }
-impl Runner {
-    // Contracts of the four Runner methods: exactly the postconditions discharged on their real
-    // bodies by unit v_closure_runner (C13.*.restore, C13.*.once, C06.*.outcome / C06.*.return, C07.*.abort).
-    #[verifier::external_body]
-    pub fn run_key_value(&self, ctx: &mut Context, key: ItemKey, value: ItemVal) -> (r: Resolved)
-        ensures params_restored(*self, old(ctx).state.vars@, final(ctx).state.vars@, 2),
-                closure_ran_once(old(ctx).trace@, final(ctx).trace@),
-                r == iteration_value(final(ctx).trace@.last()->RunClosure_0),
-    { unimplemented!() }
-    #[verifier::external_body]
-    pub fn run_index_value(&self, ctx: &mut Context, index: usize, value: ItemVal) -> (r: Resolved)
-        ensures params_restored(*self, old(ctx).state.vars@, final(ctx).state.vars@, 2),
-                closure_ran_once(old(ctx).trace@, final(ctx).trace@),
-                r == iteration_value(final(ctx).trace@.last()->RunClosure_0),
-    { unimplemented!() }
-    #[verifier::external_body]
-    pub fn map_key(&self, ctx: &mut Context, key: ItemKey) -> (r: Result<(), ExpressionError>)
-        ensures params_restored(*self, old(ctx).state.vars@, final(ctx).state.vars@, 1),
-                closure_ran_once(old(ctx).trace@, final(ctx).trace@),
-                ({ let out = final(ctx).trace@.last()->RunClosure_0;
-                   &&& (out is Err && out->Err_0 is Abort) ==> (r is Err && r->Err_0 == out->Err_0)
-                   &&& (out is Err && out->Err_0 is Return) ==> !(r is Err && r->Err_0 is Return) }),
-    { unimplemented!() }
-    #[verifier::external_body]
-    pub fn map_value(&self, ctx: &mut Context, value: ItemVal) -> (r: Result<(), ExpressionError>)
-        ensures params_restored(*self, old(ctx).state.vars@, final(ctx).state.vars@, 1),
-                closure_ran_once(old(ctx).trace@, final(ctx).trace@),
-                ({ let out = final(ctx).trace@.last()->RunClosure_0;
-                   &&& (out is Err && out->Err_0 is Abort) ==> (r is Err && r->Err_0 == out->Err_0)
-                   &&& (out is Err && out->Err_0 is Return) ==> !(r is Err && r->Err_0 is Return) }),
-    { unimplemented!() }
-}
+// The contracts of the four Runner methods used by the callers are GENERATED into the unit from
+// runner_ensures() in units.py - the very clause text discharged on their real bodies by v_closure_runner.
 pub open spec fn no_abort_runs(pre: Seq<Ev>, post: Seq<Ev>) -> bool {
     forall|k: int| pre.len() <= k < post.len() ==> !(((#[trigger] post[k])->RunClosure_0 is Err) && (post[k]->RunClosure_0->Err_0 is Abort))
 }
